@@ -8,7 +8,7 @@
    those of get_template (C05's subject) and enter the statements only through chans_of.  WF d = the
    arrays of d have consistent shapes and every template id is below n_templates. *)
 From Coq Require Import ZArith List Lia Bool Arith Sorted.
-From PV Require Import Base.NpSearch C08.Model C08.Spec C08.Proofs C08.Proofs2 C08.Proofs3 C08.Proofs4 C08.Proofs5 C08.Proofs6 C08.Proofs7 C08.Proofs8.
+From PV Require Import Base.NpSearch C08.Model C08.Spec C08.Proofs C08.Proofs2 C08.Proofs3 C08.Proofs4 C08.Proofs5 C08.Proofs6 C08.Proofs7 C08.Proofs8 C08.Proofs9 C08.History.
 Import ListNotations.
 Open Scope Z_scope.
 
@@ -228,3 +228,115 @@ Example C08_ex_identity_start_middle :      (* 5 templates (the data of ex_d rep
 Proof. eexists. split; [vm_compute; reflexivity|]. repeat split; reflexivity. Qed.
 Example C08_ex_nan_curated : exists m, load ex_d = Some m /\ l_nan m = [2; 4] /\ l_ncl m = 6.
 Proof. eexists. split; [vm_compute; reflexivity|]. split; reflexivity. Qed.
+
+(* ================================================================================================================ *)
+(* Stage 3.                                                                                                          *)
+(* ---- the checkers are complete: with C08_provenance_checker_sound / C08_checkers they DECIDE clauses 21, 22 and the
+   well-formedness test (the MM_Obs_Spec / Nan_Obs_Spec clauses are stated for the maximum of a non-empty sc) ---- *)
+Theorem C08_checkers_complete : forall (d : dset) (st sc : list Z) (omm : list (Z * list Z)) (onan : list Z) (n : Z),
+  (sc <> [] -> MM_Obs_Spec st sc omm -> mm_b st sc omm = true) /\
+  (sc <> [] -> Nan_Obs_Spec sc onan -> nan_b sc onan = true) /\
+  (NanIdx_Spec n sc onan -> nan_n_b n sc onan = true) /\
+  (WF d -> wf_b d = true) /\
+  (forall c tb, In tb (dominants d c) <-> Dominant d c tb).
+Proof.
+  intros. split; [apply mm_b_complete|]. split; [apply nan_b_complete|]. split; [apply nan_n_b_complete|].
+  split; [apply wf_b_complete|]. intros c tb. apply dominants_spec.
+Qed.
+Print Assumptions C08_checkers_complete.
+
+(* ---- the quantifier: "all pairs (spike_templates, spike_clusters) produced by arbitrary sequences of merges, splits
+   and reassignments" (History.v: Hist st B sc = sc is reachable from clusters = templates = st by merges to a fresh
+   id, phy splits (both halves renumbered with fresh ids) and reassignments of one spike to any non-negative id; B
+   bounds the ids used so far).  The guard of C08_merge_map is EXACTLY that set: every reachable vector satisfies it,
+   and every vector that satisfies it is reachable. ---- *)
+Theorem C08_history_guard : forall (st sc : list Z) (B : Z),
+  (forall t, In t st -> 0 <= t) -> Hist st B sc ->
+  length sc = length st /\ forall c, In c sc -> 0 <= c <= B.
+Proof. intros st sc B. apply hist_guard. Qed.
+Print Assumptions C08_history_guard.
+
+Theorem C08_history_exact : forall (st sc : list Z),
+  (forall t, In t st -> 0 <= t) ->
+  ((exists B, Hist st B sc) <-> (length st = length sc /\ forall c, In c sc -> 0 <= c)).
+Proof.
+  intros st sc Hst. split.
+  - intros (B & H). destruct (hist_guard st B sc Hst H) as (HL & Hc). split; [now symmetry|]. intros c Hin.
+    now apply Hc.
+  - intros (HL & Hc).
+    (* a bound above every id of st and sc *)
+    assert (Hb : forall l : list Z, exists B, forall c, In c l -> c <= B).
+    { induction l as [|x l (B & HB)]; [exists 0; intros c []|]. exists (Z.max x B). intros c [<-|Hin]; [lia|].
+      specialize (HB c Hin). lia. }
+    destruct (Hb (st ++ sc)) as (B & HB). exists B. apply hist_complete; [now symmetry| |].
+    + intros c Hin. apply HB, in_or_app. now left.
+    + intros c Hin. split; [now apply Hc|]. apply HB, in_or_app. now right.
+Qed.
+Print Assumptions C08_history_exact.
+
+(* hence every theorem above applies along every curation history: on a well-formed data set whose cluster vector
+   is reachable from its template vector, loading succeeds, nan_idx is exact and -- when the vector differs from the
+   templates -- the stored merge map meets the provenance specification (C08_single / C08_mean / C08_empty then give
+   the waveform of every id) *)
+Theorem C08_history_applies : forall (d : dset) (B : Z),
+  WF d -> GeoWF d -> d_st d <> [] -> Hist (d_st d) B (d_sc d) ->
+  exists m, load d = Some m /\
+    NanIdx_Spec (l_ncl m) (d_sc d) (l_nan m) /\
+    (d_sc d <> d_st d -> l_curated m = true /\ MergeMap_Spec (d_st d) (d_sc d) (l_mm m) (l_nan m) /\
+                         length (l_data m) = length (l_mm m) /\ l_ncl m = zlen (l_mm m)) /\
+    (d_sc d = d_st d -> l_curated m = false /\ l_ncl m = n_templates d).
+Proof.
+  intros d B Hwf Hgeo Hne H.
+  assert (Hst : forall t, In t (d_st d) -> 0 <= t) by (intros t Ht; destruct Hwf as (_ & Hr & _); apply Hr in Ht; lia).
+  destruct (hist_guard _ _ _ Hst H) as (HL & Hc).
+  assert (Hsc : d_sc d <> []) by (intros E; rewrite E in HL; destruct (d_st d); [congruence|discriminate]).
+  destruct (load_total d Hwf (templates_ok d false Hwf Hgeo) Hsc) as (m & Hm); [intros c Hin; now apply Hc|].
+  exists m. split; [exact Hm|]. split; [exact (load_nan_both d m Hm)|]. split.
+  - intros Hd. split; [exact (proj1 (load_curated d m Hd Hm))|].
+    split; [exact (load_merge_map d m Hd Hm)|exact (load_shape d m Hd Hm)].
+  - intros E. destruct (load_nan_identity d m E Hm) as (A & C & _). now split.
+Qed.
+Print Assumptions C08_history_applies.
+
+(* what merges and splits ALONE (phy's own operations, fresh ids) can produce is narrower: an id <= B0 (the ids in use
+   before curation) that is still present labels exactly the spikes of the template of the same number -- ids are
+   never re-used.  Vectors violating this (a spike moved into an existing cluster) are reachable only with a
+   reassignment; they satisfy the guard, so the theorems cover them too (example below). *)
+Theorem C08_history_phy_no_reuse : forall (st sc : list Z) (B0 B : Z),
+  HistPhy st B0 B sc -> Hist st B sc /\ B0 <= B /\ NoReuse st sc B0.
+Proof.
+  intros st sc B0 B H. split; [now apply histphy_hist with B0|]. split; [now apply histphy_bound with st sc|].
+  now apply histphy_no_reuse with B.
+Qed.
+Print Assumptions C08_history_phy_no_reuse.
+
+(* ---- examples: merge(0, 1) -> 3, then phy split of cluster 3 -> 4 (selected) and 5 (rest): id 3 is left empty ---- *)
+Example C08_ex_history :
+  let st := [0; 0; 1; 1; 2] in
+  let sc1 := merge_op [0; 1] (next_id st) st in
+  let sc2 := split_op (fun i => (i <? 2)%nat) 4 (fun _ => 5) sc1 in
+  sc1 = [3; 3; 3; 3; 2] /\ sc2 = [4; 4; 5; 5; 2] /\ HistPhy st 2 5 sc2 /\
+  merge_map st sc2 = Some [[]; []; [2]; []; [0]; [1]] /\ nan_from 0 [[]; []; [2]; []; [0]; [1]] = [0; 1; 3].
+Proof.
+  cbv zeta. split; [reflexivity|]. split; [reflexivity|]. split; [|split; reflexivity].
+  apply (HP_split _ 2 3 5 _ (fun i => (i <? 2)%nat) 4 (fun _ => 5)); [|lia|intros; lia].
+  apply (HP_merge _ 2 2 3 _ [0; 1] 3); [|lia]. apply HP_init. intros c H. cbn in H. lia.
+Qed.
+(* a spike of template 0 moved into the existing cluster 1: not producible by merges and splits (NoReuse fails at
+   spike 1: id 1 <= B0 but template 0), reachable with one reassignment, and covered: merge_map = {0: [0], 1: [0, 1]} *)
+Example C08_ex_history_reassign :
+  let st := [0; 0; 1] in let sc := [0; 1; 1] in
+  sc = reassign_op 1 1 st /\ Hist st 1 sc /\ (forall B0 B, ~ HistPhy st B0 B sc) /\
+  merge_map st sc = Some [[0]; [0; 1]].
+Proof.
+  cbv zeta. split; [reflexivity|]. split; [|split; [|reflexivity]].
+  - apply (Hist_reassign _ 1 1 [0; 0; 1] 1 1); [|lia|lia]. apply Hist_init. intros c H. cbn in H. lia.
+  - intros B0 B H. pose proof (histphy_no_reuse _ _ _ _ H) as HN.
+    assert (HB0 : 1 <= B0).
+    { clear HN. remember [0; 0; 1] as st. assert (Hst : In 1 st) by (subst; cbn; tauto). clear Heqst.
+      induction H; auto. }
+    destruct (HN 1%nat 1 0 eq_refl eq_refl HB0) as (E & _). discriminate.
+Qed.
+Example C08_ex_checkers_complete : mm_b [0; 0; 1] [0; 1; 1] [(0, [0]); (1, [0; 1])] = true /\
+  mm_b [0; 0; 1] [0; 1; 1] [(0, [0]); (1, [1])] = false /\ nan_b [0; 3] [1; 2] = true /\ nan_b [0; 3] [1] = false.
+Proof. vm_compute. repeat split. Qed.
